@@ -3,12 +3,14 @@
    file, rank, square, piece letter, coordinate move and the unvalidated FEN builder parser return a value
    or an error; every accepted coordinate-move text re-prints to a canonical text that parses back to the
    same move.  All model functions are structurally recursive, so termination is by construction.
-   PARTIAL: (1) ChessBoard::from_fen = builder parser followed by position construction; that construction
-   never panics on arbitrary builder contents is part of C09 and, until that theorem exists, is decided by the
-   differential run (grammar + mutation FEN streams); (2) the three regex passes and textwrap inside
-   Game::from_pgn are not modelled: PGN totality is checked on the library only (catch_unwind + slow-parse
-   monitor on exported, mutated and repetition-ending PGN texts). *)
-Require Import LC.model.Prims LC.model.Text LC.model.Fen LC.proofs.C10Proofs.
+   Also PROVED: ChessBoard::from_fen (builder parser followed by position construction) never panics on ANY string
+   (C10_from_fen_total: the parser's output is always a well-formed builder, and construction is total by C09); the PGN
+   importer after tokenisation never panics on ANY token list from any game whose position invariants hold
+   (C10_pgn_import_total: move-text lookup, move application, history recording and status update are total).
+   PARTIAL: the three regex passes and textwrap inside Game::from_pgn are not modelled (external crates): that they
+   neither panic nor hang is checked on the library only (catch_unwind + slow-parse monitor on exported, mutated and
+   repetition-ending PGN texts, and every string up to a bounded length over the syntax alphabet). *)
+Require Import LC.model.Prims LC.model.Board LC.model.Text LC.model.Fen LC.model.Game LC.proofs.C10Proofs LC.proofs.C10Total.
 Open Scope N_scope.
 Theorem C10_file_total : forall s, parse_file s <> Panic. Proof. exact parse_file_total. Qed.
 Theorem C10_rank_total : forall s, parse_rank s <> Panic. Proof. exact parse_rank_total. Qed.
@@ -18,3 +20,9 @@ Theorem C10_move_total : forall s, parse_bmove s <> Panic. Proof. exact parse_bm
 Theorem C10_move_canonical : forall s m, parse_bmove s = Ok m -> parse_bmove (print_bmove m) = Ok m.
 Proof. exact parse_bmove_canonical. Qed.
 Theorem C10_fen_builder_total : forall s, parse_fen s <> Panic. Proof. exact parse_fen_total. Qed.
+Theorem C10_from_fen_total : forall K s, from_fen K s <> Panic.
+Proof. exact from_fen_total. Qed.
+Theorem C10_fen_builder_wellformed : forall s bd, parse_fen s = Ok bd -> List.length (bd_pieces bd) = 64%nat /\ forall e, bd_ep bd = Some e -> e < 64.
+Proof. exact parse_fen_wf. Qed.
+Theorem C10_pgn_import_total : forall K g0 toks res, GameGood K g0 -> from_pgn_tokens K g0 toks res <> Panic.
+Proof. exact from_pgn_tokens_total. Qed.
